@@ -28,6 +28,9 @@ class Files:
             self.fs = FakeFS()
         else:
             self.dir = tempfile.mkdtemp(prefix="c19_")
+            import shutil
+            import weakref
+            weakref.finalize(self, shutil.rmtree, self.dir, True)      # concrete replays leave nothing behind in /tmp
 
     def path(self, name="seqcnt.txt"):
         if self.ctx.symbolic:
